@@ -21,7 +21,7 @@ register(PropSpec(
                                    "abort=1": ("C04/timeout-bookkeeping-abandoned",
                                                "the model (which agrees with the node on this history) abandons the timeout bookkeeping of a whole block (a successful receipt "
                                                "without any record): accepted requests of that block are not booked and answered ones stay listed")})],
-    facts=["txFsm"],
+    facts=["txFsm", "ibtpContextHeight"],
     rule="exec engine: per transaction id a generated life (request with timeout 0/1/2/3/4/10/huge/negative, success/failure/rollback receipts "
          "before/at/after the deadline, repeated and out-of-protocol receipts, unrelated and empty blocks); GetStatus observed after every block; "
          "non-trivial = at least one observed status edge; distinct = distinct op list + tag set",
